@@ -42,6 +42,14 @@ PskLen(f) == IF f.op = "extract" /\ f.salt.op = "expand" THEN 1 + PskLen(f.ikm) 
 \* ("cut": the provenance tree was truncated at its depth limit below this node)
 PskSecret(f) == f.id = Zero \/ f.op = "cut" \/ PskChain(f, PskLen(f), PskLen(f))
 
+\* the PreSharedKeyIDs (contexts of the psk inputs without index and count) along the chain, first PSK first
+RECURSIVE PskIds(_)
+PskIds(f) == IF f.op = "extract" /\ f.salt.op = "expand" THEN Append(PskIds(f.ikm), f.salt.ctxHead) ELSE <<>>
+\* f = an epoch-derived secret (DeriveSecret(epoch_secret, .)): its PSK chain lists exactly `ids`, in that order
+PskOrder(f, ids) ==
+    \/ f.op # "expand" \/ f.prk.op # "expand" \/ f.prk.prk.op # "extract"
+    \/ LET ps == f.prk.prk.ikm IN ps.op = "cut" \/ PskIds(ps) = ids
+
 \* ---- 8 key schedule
 CommitSecret(f) == f.id = Zero \/ DS(f, "path") \/ Unknown(f)
 \* (a receiver obtains the last path secret by HPKE: its DeriveSecret(., "path") is still recorded)
